@@ -96,6 +96,23 @@ pub fn magnitudes() -> Vec<String> {
     out.push("9".repeat(60));
     out.sort();
     out.dedup();
+    // Non-canonical spellings of the same numbers: zero-padded to 21..64 digits, explicit plus
+    // sign (both are accepted by lenient integer parsers).
+    let mut spelled = Vec::new();
+    for (i, m) in out.iter().enumerate() {
+        if i % 3 == 0 {
+            for width in [21usize, 24, 40, 64] {
+                if m.len() < width {
+                    spelled.push(format!("{}{}", "0".repeat(width - m.len()), m));
+                }
+            }
+        }
+        if i % 7 == 0 {
+            spelled.push(format!("0{m}"));
+            spelled.push(format!("+{m}"));
+        }
+    }
+    out.extend(spelled);
     out
 }
 
